@@ -1,7 +1,7 @@
 // Drives the generated Naunet::SetReferenceAbund / Naunet::Renorm (cvode dense, or odeint with -DODEINT) against the stand-ins;
 // all cases run in ONE process, one after the other (a solver object per case).
 // usage: renorm_driver <cases.txt> <scratchdir>
-// case line:  tid  ref[NELEMENTS]  ab[NEQUATIONS]  nops  {op}*      op: 0 SetReferenceAbund(ref, 0) | 1 Renorm | 2 perturb
+// case line:  tid  ref[NELEMENTS]  ab[NEQUATIONS]  nops  {op}*      op: 0 SetReferenceAbund(ref, 0) | 1 Renorm | 2 perturb | 100+s perturb species s only
 #include <stdio.h>
 #include <stdlib.h>
 #include <string.h>
@@ -30,6 +30,7 @@ int main(int argc, char **argv) {
             int ret = 0;
             if (op == 0) ret = n.SetReferenceAbund(ref, 0);
             else if (op == 1) ret = n.Renorm(ab);
+            else if (op >= 100) ab[(op - 100) % NSPECIES] *= 1.03;      // one species only, by three per cent
             else for (int i = 0; i < NSPECIES; i++) ab[i] *= (1.0 + 0.37 * ((i * 7 + k * 3) % 5));
             printf("{\"tid\":%ld,\"k\":%d,\"op\":%d,\"ret\":%d,\"ab\":[", tid, k, op, ret);
             for (int i = 0; i < NEQUATIONS; i++) printf("%s%.17g", i ? "," : "", ab[i]);
